@@ -150,6 +150,7 @@ type Case struct {
 	Stages [][]Arg // per stage
 	Mode   string  // uncaptured | captured
 	Coord  string  // coordinates for pipeline keys
+	InFunc bool    // the call chain sits inside a function body
 }
 
 func (c Case) cells() []string {
@@ -195,6 +196,9 @@ func (c Case) source() string {
 	if needID {
 		sb.WriteString("func id(s string) string {\n\treturn s\n}\n\n")
 	}
+	if c.InFunc {
+		sb.WriteString("func work() {\n")
+	}
 	for _, p := range pre {
 		sb.WriteString(p + "\n")
 	}
@@ -203,6 +207,9 @@ func (c Case) source() string {
 		sb.WriteString("print(\"<\" + o + \">\")\nprint(c)\n")
 	} else {
 		sb.WriteString(strings.Join(chain, " | ") + "\n")
+	}
+	if c.InFunc {
+		sb.WriteString("}\nwork()\n")
 	}
 	sb.WriteString("print(\"done\")\n")
 	return sb.String()
@@ -627,8 +634,10 @@ func pipelineCases(thorough bool) []Case {
 								as = append(as, pats[pn]...)
 								stages = append(stages, as)
 							}
-							out = append(out, Case{Kind: "pipeline", Stages: stages, Mode: m,
-								Coord: fmt.Sprintf("pipeline=%d argpat=%s tail=%s prior=%s status=%d mode=%s", L, pn, tail, strings.Trim(strings.ReplaceAll(fmt.Sprint(pr), " ", ","), "[]"), last, m)})
+							coord := fmt.Sprintf("pipeline=%d argpat=%s tail=%s prior=%s status=%d mode=%s", L, pn, tail, strings.Trim(strings.ReplaceAll(fmt.Sprint(pr), " ", ","), "[]"), last, m)
+							out = append(out, Case{Kind: "pipeline", Stages: stages, Mode: m, Coord: coord})
+							// the same chain inside a function body (locals, helper variables and $? behave differently there)
+							out = append(out, Case{Kind: "pipeline", Stages: stages, Mode: m, Coord: coord + " ctx=function", InFunc: true})
 						}
 					}
 				}
